@@ -1,6 +1,6 @@
 #!/bin/bash
 # usage: trymut.sh <patch.diff> <prop> [<prop>...] — apply a seeded change to /repo, run the quick checks, undo it.
-P="$1"; shift
+P="$(readlink -f "$1")"; shift
 cd /repo || exit 2
 if [ -n "$(git status --porcelain)" ]; then echo "repo dirty"; exit 2; fi
 if ! git apply "$P" 2>/dev/null; then
